@@ -52,14 +52,30 @@ func Wrap(t tabular.Table, style string) RenderTable {
 	case "texttable":
 		tt := texttable.Wrap(t)
 		if len(sections) > 1 {
-			tt.SetDecorationNamed(sections[1])
+			rest := style[len(sections[0])+1:]
+			if decoration.Named(style) != decoration.EmptyDecoration {
+				// a decoration registered under a name which starts "texttable."
+				rest = style
+			}
+			tt.SetDecorationNamed(decorationName(rest, sections[1]))
 		}
 		return tt
 	default:
 		tt := texttable.Wrap(t)
-		tt.SetDecorationNamed(sections[0])
+		tt.SetDecorationNamed(decorationName(style, sections[0]))
 		return tt
 	}
+}
+
+// decorationName picks the decoration name out of (the rest of) a style string:
+// applications may register decoration names which themselves contain dots, and
+// ListStyles advertises them, so a registered name wins as a whole; otherwise
+// the name is the first section and any trailing sections are ignored.
+func decorationName(whole, firstSection string) string {
+	if decoration.Named(whole) != decoration.EmptyDecoration {
+		return whole
+	}
+	return firstSection
 }
 
 // New creates a new tabular.Table and Wrap()s it.
